@@ -56,8 +56,8 @@ def cases(draw, tier):
     return {"graph": graph, "walk": walk, "text": text,
             "check_kind": draw(st.sampled_from(["none", "none", "of_text", "of_text", "of_walk", "wrong", "empty"])),
             "check_len": draw(st.integers(1, 6)), "indel": draw(st.booleans()),
-            "heap": draw(st.sampled_from([1, 10, 1000, 1000, 10 ** 9 if kind in ("walk", "edit1", "spaced")
-                                          else 10 ** 5, "inf" if kind in ("walk", "edit1") else 1000])),
+            "heap": draw(st.sampled_from([1, 10, 1000, 1000, 10 ** 9 if kind in ("walk", "edit1") else 10 ** 4,
+                                          "inf" if kind in ("walk", "edit1") else 1000])),
             "salt": draw(st.integers(0, 2 ** 16)),
             "layout": draw(st.sampled_from([None, None, None, "F", "strided", "offset", "int32"])),
             "np_start": draw(st.sampled_from([False, False, True]))}
